@@ -1,8 +1,8 @@
 (* C03, server half, for every visibility policy (PAll / PBlack / PWhite): the update messages sent
    to a client are the structural diffs of the part of the server world that is VISIBLE to that
    client, between consecutive ticks.  Definitions only; lemmas: Repl/StructVis_proofs.v (a tick),
-   Repl/StructVisOps_proofs.v (operations), Repl/StructVisRun_proofs.v (frames, runs); pinned
-   statements: Properties/C03V.v.  Everything of Repl/StructSpec.v is reused (structure,
+   Repl/StructVisOps_proofs.v (operations), Repl/StructVisRun_proofs.v (frames, runs),
+   Repl/StructVisIndep_proofs.v (independence of the clients); pinned statements: Properties/C03V.v.  Everything of Repl/StructSpec.v is reused (structure,
    struct_equiv, struct_of, abs_apply, pending_ok, the ghost run gstate / gstep / grun: `sync_sent`
    does not depend on the policy).
 
@@ -18,7 +18,9 @@
    srv_base_v / srv_ok_v   `srv_base` / `srv_ok` of StructSpec without `no_vis`
    cl_keep             proof vocabulary: a client record that changed only in ways the invariants do
                        not read (acknowledgements, pre-spawn mappings, `set_visibility`)
-   ginv_v              the invariant of a ghost run, all policies *)
+   ginv_v              the invariant of a ghost run, all policies
+   vis_kind / clients_kind  the policy decides which ClientVisibility an authorized client carries
+   same_but / gop_sim  independence: servers / run steps that differ only in what concerns one slot *)
 From RV Require Import Lib.Res Repl.ClientTicks Repl.World Vis.Visibility Vis.VisSpec Vis.Visibility_proofs
   Tick.RepliconTick Repl.Server Repl.ServerSpec Repl.StructSpec.
 Open Scope N_scope.
@@ -111,6 +113,44 @@ Record ginv_v (g : gstate) : Prop := mkGInvV {
   gv_dom : forall slot, al_get slot (g_sent g) <> None ->
            exists cl, In cl (sv_clients (g_srv g)) /\ sc_slot cl = slot /\ sc_authorized cl = true
 }.
+
+(* ---------- the policy decides the kind of ClientVisibility ---------- *)
+
+Definition vis_kind (p : policy) (vo : option vis) : Prop :=
+  match p, vo with
+  | PAll, None => True
+  | PBlack, Some v => is_whitelist v = false
+  | PWhite, Some v => is_whitelist v = true
+  | _, _ => False
+  end.
+
+Definition clients_kind (c : cfg) (s : server) : Prop :=
+  forall cl, In cl (sv_clients s) -> sc_authorized cl = true -> vis_kind (cfg_policy c) (sc_vis cl).
+
+(* ---------- independence of the clients ---------- *)
+
+(* two client records that may differ only when they belong to [slot] *)
+Definition cl_sim (slot : N) (c1 c2 : sclient) : Prop :=
+  sc_slot c1 = sc_slot c2 /\ (sc_slot c1 <> slot -> c1 = c2).
+
+(* two servers that agree on everything except the record of the client in [slot] *)
+Definition same_but (slot : N) (s1 s2 : server) : Prop :=
+  strip s1 = strip s2 /\ Forall2 (cl_sim slot) (sv_clients s1) (sv_clients s2).
+
+(* the game operations that are not a visibility setting for [slot] *)
+Definition not_vis_of (slot : N) (op : sop) : bool :=
+  match op with SVis sl _ _ => negb (sl =? slot) | _ => true end.
+
+(* everything a frame sent to a slot: update message, mutate messages, oracle flag *)
+Definition out_for (slot : N) (outs : list client_out) : option client_out :=
+  find (fun o => co_slot o =? slot) outs.
+
+(* two steps of a run that differ only in the visibility settings for [slot] *)
+Inductive gop_sim (slot : N) : gop -> gop -> Prop :=
+| gs_same o : gop_sim slot o o
+| gs_frame tick dt cleanup ops1 ops2 parts :
+    filter (not_vis_of slot) ops1 = filter (not_vis_of slot) ops2 ->
+    gop_sim slot (GFrame tick dt cleanup ops1 parts) (GFrame tick dt cleanup ops2 parts).
 
 (* every authorized client of the state has been sent exactly the visible part of the current
    structure (boolean, for the examples; meaningful right after a tick) *)
